@@ -25,7 +25,7 @@ EXPLANATION = "spectral form and scalar positivity/boundedness facts proved for 
 
 
 def cases(tier):
-    cs = ["diag_eigen/eigen", "lemma/power", "eigdecomp"]
+    cs = ["diag_eigen/eigen", "diag_eigen/diagonal-any-sign", "lemma/power", "eigdecomp"]
     cs += [f"dispatch/{c}/{s}/d0" for c in ("eigen", "eigen-stab") for s in ("vec", "rect", "cube", "scalar0", "scalar1", "scalar11", "square")]
     return cs
 
@@ -141,6 +141,18 @@ def replay_file(doc):
             if not torch.isfinite(X).all() or float(X) <= 0:
                 return True, f"matrix_inverse_root([[{val}]], root=2, epsilon={eps}) = {X.tolist()} (not finite positive)"
         return False, "1x1 slightly negative inputs give finite positive roots"
+    if rp.get("kind") == "diag_any_sign":
+        import torch
+        from fractions import Fraction
+        import matrix_functions as M
+        r = Fraction(*rp.get("root", [2, 1]))
+        for d, eps in (([-1e-3, 1.0], 1e-6), ([-1e-4, 0.0, 2.0], 1e-5)):
+            A = torch.diag(torch.tensor(d, dtype=torch.float64))
+            fast = M.matrix_inverse_root(A, r, epsilon=eps, is_diagonal=True)
+            general = M.matrix_inverse_root(A, r, epsilon=eps, is_diagonal=False)
+            if not torch.isfinite(fast).all() or not torch.allclose(fast, general, rtol=1e-8, atol=1e-10):
+                return True, f"matrix_inverse_root(diag({d}), root={r}, epsilon={eps}): is_diagonal=True gives {torch.diagonal(fast).tolist()}, the general path {torch.diagonal(general).tolist()}"
+        return False, "diagonal fast path agrees with the general path on slightly negative diagonal entries"
     if rp.get("kind") == "shapes":
         bad = native_shapes()
         return bool(bad), str(bad)
